@@ -172,7 +172,9 @@ func raceReports() {
 			if !strings.Contains(txt, "influxdb/services/meta.") {
 				return
 			}
-			// the two access stacks are the first two blocks
+			// the two access stacks are the first two blocks; each is named by
+			// its innermost services/meta function, or "snapshot-persist" when
+			// it runs under storeFSMSnapshot.Persist
 			var acc []string
 			inStack, got := false, false
 			for _, l := range cur[1:] {
@@ -182,11 +184,16 @@ func raceReports() {
 					inStack, got = true, false
 				case strings.HasPrefix(l, "Goroutine ") || l == "":
 					inStack = false
-				case inStack && !got:
+				case inStack:
 					if m := reRaceFrame.FindStringSubmatch(l); m != nil {
 						fn := strings.TrimPrefix(m[1], "github.com/influxdata/influxdb/services/meta.")
-						acc = append(acc, fn)
-						got = true
+						if !got {
+							acc = append(acc, fn)
+							got = true
+						}
+						if fn == "(*storeFSMSnapshot).Persist" {
+							acc[len(acc)-1] = "snapshot-persist"
+						}
 					}
 				}
 			}
